@@ -15,7 +15,7 @@ RULE = ("(a) every statistic (14) on every shape of its dimensionality in a grid
         "shapes of the wrong dimensionality (error expected): `sfs stat --precision 15` vs the model within 1e-9 relative "
         "(D statistics: model numerator / sqrt(model radicand)); (b) end to end: random call sets without missing data -> "
         "`sfs create` -> `sfs stat`, vs the definitions computed directly from the genotypes by enumerating chromosome "
-        "pairs / allele frequencies / genotype pairs. non-trivial = statistic defined and non-zero; the same integer spectrum as text and as npy of all 18 element types / byte orders must print the same statistic; and as text without a final line feed, with CR LF, tabs, one value per line, trailing blank lines; fractional (dyadic) spectra with fewer than one segregating site")
+        "pairs / allele frequencies / genotype pairs. non-trivial = statistic defined and non-zero; the same integer spectrum as text and as npy of all 18 element types / byte orders must print the same statistic; and as text without a final line feed, with CR LF, tabs, one value per line, trailing blank lines; fractional (dyadic) spectra with fewer than one segregating site; undefined / infinite / beyond-2^63 statistics at precisions 0, 1, 6 and in precision lists; fixed combinations of a scale-free and a scale-dependent statistic")
 
 
 def shapes_for(stat, tier, rng):
@@ -113,6 +113,10 @@ def check(rep, tier, seed):
             for top in (64, 1024):
                 data = [Dy(rng.randrange(1, 200), 1)] + [Dy(rng.randrange(0, 7), top * (sh[0] - 1)) for _ in range(sh[0] - 2)] + [Dy(rng.randrange(0, 3), 1)]
                 cases.append((st, sh, data))
+    # sample sizes around the end of the precomputed factorial table (170!): every n from 165 to 180 chromosomes, odd ones too
+    for st in ("pi", "theta", "d-tajima", "d-fu-li", "s"):
+        for n_ in (range(165, 181) if st in ("pi", "d-tajima") else (169, 170, 171, 172, 173, 174)):
+            cases.append((st, [n_ + 1], [rng.randrange(1, 40) for _ in range(n_ + 1)]))
     mt = lambda x: ("%d/%d" % (x.numerator, x.denominator)) if isinstance(x, Fraction) else str(x)
     mo = run_model(["stat %s %s %s" % (st, fmt(sh), fmt([mt(x) for x in data])) for st, sh, data in cases])
     res = run_stats(cases)
@@ -147,7 +151,9 @@ def check(rep, tier, seed):
     mjobs, mmeta = [], []
     for _ in range(30 if tier == "quick" else 300):
         d = rng.choice([1, 1, 2, 2, 3, 4])
-        sh = [rng.randrange(3, 7) for _ in range(d)]
+        if _ % 4 == 0:
+            d = [2, 2, 2, 2, 1, 3, 4, 1][(_ // 4) % 8]          # the iterations that carry the fixed combinations below
+        sh = [rng.randrange(3, 7) for _i in range(d)]
         pool = list(groups[d])
         if d == 2 and rng.random() < 0.4:
             sh = [3, 3]; pool += ["king", "r0", "r1"]
@@ -157,6 +163,11 @@ def check(rep, tier, seed):
         data = [str(rng.randrange(1, 60)) for _ in range(E)]
         k = rng.randrange(2, len(pool) + 1)
         req = [rng.choice(pool) for _ in range(k)] if rng.random() < 0.3 else rng.sample(pool, k)     # repeats are allowed too
+        # fixed companions, whatever the random choices: a scale-free statistic next to a scale-dependent one and nothing else
+        fixed_req = {2: [["fst", "pi-xy"], ["pi-xy", "f2"], ["f2", "fst", "pi-xy"], ["pi-xy", "fst", "king"] if sh == [3, 3] else ["pi-xy", "fst"]],
+                     1: [["pi", "d-tajima"], ["theta", "d-fu-li"]], 3: [["f3", "sum"], ["s", "f3"]], 4: [["f4", "s"], ["sum", "f4"]]}[d]
+        if len(mjobs) < 400 and _ % 4 == 0:
+            req = list(fixed_req[(_ // 4) % len(fixed_req)])
         precs = [rng.randrange(0, 13) for _ in req] if rng.random() < 0.5 else [rng.randrange(0, 13)] * len(req)
         delim = rng.choice([",", ";", "\t", " "])
         txt = _ts(sh, data)
@@ -252,6 +263,41 @@ def check(rep, tier, seed):
                      argv=["sfs", "create"] + cli_samples_arg(sm), stdin=render_vcf(cols, recs).decode(),
                      observed={"rc": rc, "stdout": so.decode(errors="replace")[:100]}, expected=str(float(want)),
                      detail="statistic from the created spectrum differs from the same quantity computed directly from the genotypes")
+    # (c') values that are no ordinary numbers - a statistic that is undefined (NaN: D without segregating sites), infinite
+    # (R0 with an empty denominator) or beyond 2^63 (sums of huge counts) - are printed as such at EVERY precision, 0 included
+    sj, sm_ = [], []
+    specials = [("d-tajima", [5], ["7", "0", "0", "0", "2"]), ("d-fu-li", [5], ["7", "0", "0", "0", "2"]), ("r0", [3, 3], ["5", "1", "0", "2", "0", "3", "0", "1", "4"]),
+                ("r1", [3, 3], ["5", "0", "0", "0", "3", "0", "0", "0", "4"]), ("king", [3, 3], ["5", "0", "0", "0", "0", "0", "0", "0", "4"]), ("fst", [3, 3], ["5", "0", "0", "0", "0", "0", "0", "0", "4"]),
+                ("sum", [4], ["5e17", "4e19", "1e19", "3e18"]), ("s", [4], ["5e17", "4e19", "1e19", "3e18"]), ("sum", [3], ["1e300", "1e300", "5"]), ("pi", [4], ["1", "3e19", "2e19", "1"]),
+                ("theta", [4], ["1", "3e19", "2e19", "1"]), ("sum", [3], ["inf", "1", "2"]), ("s", [3], ["0", "nan", "2"])]
+    for st, sh, vals in specials:
+        for p_ in (15, 0, 1, 6):
+            sj.append((["stat", "-s", st, "-p", str(p_)], _ts(sh, vals))); sm_.append((st, sh, vals, p_))
+        sj.append((["stat", "-s", st + ",sum", "-p", "0,3"], _ts(sh, vals))); sm_.append((st, sh, vals, "0,3"))
+    refv_ = None
+    for (st, sh, vals, p_), (rc, so, se) in zip(sm_, run_cli_many(sj)):
+        tok_ = so.decode(errors="replace").strip().split(",")[0]
+        try:
+            v_ = float(tok_) if rc == 0 else None
+        except ValueError:
+            v_ = None
+        if p_ == 15:
+            refv_ = v_
+            continue
+        rep.count("stat-special-values", "%s -p %s on %s" % (st, p_, fmt(sh)), True)
+        if refv_ is None:
+            continue
+        import math as _m
+        if _m.isnan(refv_):
+            good = v_ is not None and _m.isnan(v_)
+        elif _m.isinf(refv_):
+            good = v_ == refv_
+        else:
+            good = v_ is not None and abs(v_ - refv_) <= 0.5 * 10.0 ** (-int(str(p_).split(",")[0])) * (1 + 1e-9) + abs(refv_) * 1e-12
+        if not good:
+            rep.fail(kind="property-oracle", cls="stat:special-value:" + st, case="stat -s %s -p %s on %s %s" % (st, p_, fmt(sh), " ".join(vals)), argv=["sfs", "stat", "-s", st, "-p", str(p_)],
+                     stdin=_ts(sh, vals).decode(), observed={"rc": rc, "stdout": so.decode(errors="replace")[:100]}, expected="the value printed at precision 15 (%r), rounded to %s decimals" % (refv_, p_),
+                     detail="an undefined, infinite or very large statistic is not printed as such at this precision")
     # (d) the statistic is a function of the spectrum, not of the file it came in: the same integer-valued spectrum as text
     # and as npy of every element type and byte order (files built here with struct, numpy's layout) gives the same bytes
     import struct as _st
